@@ -467,6 +467,13 @@ def run(ctx: Ctx) -> None:
     rule_r1(ctx)
     rule_r2(ctx)
     rule_r3_r4(ctx)
+    # ---- R5: refinements are read from the class declarations on every use (documented: they may be re-declared
+    # before a grammar is extracted), so the readers must not memoise
+    from .c08 import process_state_rule
+    ctx.rule("C02.R5", "declaration readers (grammar package) keep no cache: a re-declared refinement is seen by the next extraction")
+    n5 = process_state_rule(ctx, "C02.R5", ("geneticengine.grammar",))
+    ctx.ob("C02.R5", None, None, "grammar package scanned for memoisation / module-level state", True, f"{n5} candidate sites",
+           module="geneticengine/grammar")
     ctx.assumptions += [
         "RandomSource.randint / random_float / choice honour their contracts (C18)",
         "constructor parameters of a refinement are ordered (min <= max): user contract",
